@@ -731,8 +731,20 @@ static int load_touchstone1(ts_parser_state_t *tpsp)
 	    tpsp->tps_filename, tpsp->tps_line);
 	return -1;
     }
-    if (tpsp->tps_value_count == 5)
+    if (tpsp->tps_value_count == 5) {
+	/*
+	 * The file holds noise parameters only.  Noise data exist only
+	 * for two-port files: set up a 2x2 result with no frequencies.
+	 */
+	tpsp->tps_ports = 2;
+	if (vnadata_init(vdp, tpsp->tps_parameter_type, 2, 2, 0) == -1) {
+	    _vnadata_error(vdip, VNAERR_SYSTEM,
+		    "realloc: %s", strerror(errno));
+	    return -1;
+	}
+	(void)vnadata_set_all_z0(vdp, tpsp->tps_z0);
 	goto parse_noise_data;
+    }
 
     if (tpsp->tps_parameter_type == VPT_H ||
 	    tpsp->tps_parameter_type == VPT_G) {
